@@ -39,10 +39,11 @@ Emit(d) ==
       vs == Take(DeclVals(d, P), NVals) IN
   PrintT(ToJson([kind |-> "map", prog |-> P, d |-> d.name,
                  vecs |-> [q \in 1..Len(vs) |->
+                            LET e == Observe(vs[q], d, P, {}) IN
                             [v |-> vs[q],
                              doc |-> Canon(ShapeD(vs[q], d, P)),
-                             exp |-> Observe(vs[q], d, P, {}),
-                             alt |-> [a \in 1..Len(AttrDevs) |-> Alt(Observe(vs[q], d, P, {}), Observe(vs[q], d, P, {AttrDevs[a]}))]]]]))
+                             exp |-> e,
+                             alt |-> [a \in 1..Len(AttrDevs) |-> Alt(e, Observe(vs[q], d, P, {AttrDevs[a]}))]]]]))
 InFamily(d) == /\ Len(d.fields) \in GenSizes[KV(d)]
                /\ d.kind = "enum" \/ (first - 1) % Len(d.fields) = 0
 GenDeclInv == (HasDecl /\ InFamily(cur)) => Emit(cur)
@@ -51,9 +52,10 @@ GenDeclInv == (HasDecl /\ InFamily(cur)) => Emit(cur)
 GenLibInit == (\A i \in 1..Len(Lib) : Emit(Lib[i])) /\ Init
 
 EmitLit(n) ==
+  LET e == ObserveLit(n, {}) IN
   PrintT(ToJson([kind |-> "lit", ast |-> n, src |-> Src(n), doc |-> Canon(DenoteLit(n)),
-                 exp |-> ObserveLit(n, {}),
-                 alt |-> [a \in 1..Len(AttrDevs) |-> Alt(ObserveLit(n, {}), ObserveLit(n, {AttrDevs[a]}))]]))
+                 exp |-> e,
+                 alt |-> [a \in 1..Len(AttrDevs) |-> Alt(e, ObserveLit(n, {AttrDevs[a]}))]]))
 GenLitInv == HasLit => EmitLit(lit)
 
 \* the catalogues the program generator needs (leaf / key sources are Rust text, see gen/src/support.rs for the bindings)
